@@ -28,7 +28,7 @@ var ignoredFuncs = map[string]bool{
 	"sync/atomic.Int64.Add": true, "sync/atomic.Int64.Store": true, "sync/atomic.Int32.Add": true, "sync/atomic.Bool.Store": true,
 	"sync/atomic.Uint64.Add": true, "sync/atomic.Uint32.Add": true,
 	"context.Background": true, "context.TODO": true, "context.Context.Done": true,
-	"time.Now": true,
+	"time.Now": true, ".error.Error": true,
 }
 
 func (fv *FuncVerifier) calleeOf(call *ast.CallExpr) types.Object {
@@ -437,6 +437,9 @@ func (fv *FuncVerifier) evalFuncCall(fn *types.Func, call *ast.CallExpr, st *Sta
 	if sp == nil {
 		if key == "sort.Search" {
 			return fv.sortSearch(call, st)
+		}
+		if key == "slices.BinarySearchFunc" {
+			return fv.binarySearchFunc(call, st)
 		}
 		if key == "golang.org/x/sync/errgroup.Group.Go" || key == "golang.org/x/sync/errgroup.Group.Wait" {
 			return fv.errgroupCall(fn, call, st)
@@ -1054,6 +1057,42 @@ func (fv *FuncVerifier) wgObj(v types.Object) types.Object {
 	o := types.NewVar(token.NoPos, nil, "wgerr_"+v.Name(), types.Universe.Lookup("error").Type())
 	fv.wgVars[v] = o
 	return o
+}
+
+// binarySearchFunc models slices.BinarySearchFunc(s, target, cmp) for a function literal cmp: the
+// result (pos, found) satisfies 0 <= pos <= len(s), cmp(s[pos], target) >= 0 if pos < len(s),
+// cmp(s[pos-1], target) < 0 if pos > 0, and found == (pos < len(s) && cmp(s[pos], target) == 0) -
+// what the binary search establishes for any comparator; that pos is the insertion point follows
+// from the sortedness the caller knows.
+func (fv *FuncVerifier) binarySearchFunc(call *ast.CallExpr, st *State) []Term {
+	lit, ok := ast.Unparen(call.Args[2]).(*ast.FuncLit)
+	if !ok || fv.specMode > 0 || fv.termMode {
+		reject("slices.BinarySearchFunc with a comparator that is not a function literal at %s", fv.pos(call.Pos()))
+	}
+	sl := fv.eval(call.Args[0], st)
+	if sl.Sort == nil || sl.Sort.Kind != KSlice {
+		reject("slices.BinarySearchFunc over an unmodelled slice at %s", fv.pos(call.Pos()))
+	}
+	target := fv.eval(call.Args[1], st)
+	n := slLen(sl)
+	r := fv.u.freshConst("bsearch", sortInt)
+	st.assume(mk(sortBool, "(and (<= 0 %s) (<= %s %s))", r.S, r.S, n.S))
+	at := func(x Term) Term {
+		a := st.clone()
+		a.assume(mk(sortBool, "(and (<= 0 %s) (< %s %s))", x.S, x.S, n.S))
+		res := fv.runClosureBody(lit, fv.frame(), []Term{slAt(sl, x), target}, a)
+		if len(res) != 1 || res[0].Sort == nil || res[0].Sort.Kind != KInt {
+			reject("slices.BinarySearchFunc comparator at %s", fv.pos(lit.Pos()))
+		}
+		return res[0]
+	}
+	here := fv.def("bcmp", at(r))
+	prev := fv.def("bsearchPrev", mk(sortInt, "(- %s 1)", r.S))
+	st.assume(implies(mk(sortBool, "(< %s %s)", r.S, n.S), mk(sortBool, "(>= %s 0)", here.S)))
+	st.assume(implies(mk(sortBool, "(> %s 0)", r.S), mk(sortBool, "(< %s 0)", at(prev).S)))
+	found := fv.def("bfound", and(mk(sortBool, "(< %s %s)", r.S, n.S), mk(sortBool, "(= %s 0)", here.S)))
+	fv.u.note("slices.BinarySearchFunc modelled by what binary search establishes: cmp(s[pos], t) >= 0 if pos < len, cmp(s[pos-1], t) < 0 if pos > 0")
+	return []Term{r, found}
 }
 
 // ---------------------------------------------------------------- pure functions
@@ -1682,6 +1721,35 @@ func (fv *FuncVerifier) modularCall(fn *types.Func, sp *FuncSpec, args []Term, s
 	// 4. postconditions
 	vals := append(append([]Term{}, args...), results...)
 	fv.pendingFresh = nil
+	// a callee whose contract speaks about allocation (__fresh results) may have allocated any
+	// number of objects: the allocation sets grow arbitrarily before its postconditions are
+	// assumed, so that __alloc(..) in them refers to the state after the call
+	grows := false
+	for _, c := range sp.Ensures {
+		if strings.Contains(c.Text, "__fresh(") {
+			grows = true
+		}
+	}
+	if grows {
+		// first pass (on a scratch state) only finds out which sorts get fresh objects
+		scratch := st.clone()
+		for _, c := range sp.Ensures {
+			fv.evalWrapper(sp.PkgPath, c.Wrapper, vals, scratch, old)
+		}
+		seen := map[string]bool{}
+		for _, x := range fv.pendingFresh {
+			k := "alloc:" + heapName(x.Sort)
+			if seen[k] {
+				continue
+			}
+			seen[k] = true
+			cur := fv.allocSet(st, x.Sort)
+			na := fv.u.freshConst("alloc", cur.Sort)
+			st.assume(mk(sortBool, "(forall ((x!f Int)) (! (=> (select %s x!f) (select %s x!f)) :pattern ((select %s x!f))))", cur.S, na.S, na.S))
+			st.heaps[k] = na
+		}
+		fv.pendingFresh = nil
+	}
 	for _, c := range sp.Ensures {
 		st.assume(fv.evalWrapper(sp.PkgPath, c.Wrapper, vals, st, old))
 	}
